@@ -148,19 +148,6 @@ Proof.
   destruct (brillhart p draws80) as [[a b]|]; [|discriminate]. exists a, b. split; [reflexivity | apply Z.eqb_eq, H].
 Qed.
 
-(* --- logp: 2 <= p <= 16, p <= a <= 3000 *)
-Definition logp_ok (p : Z) : bool :=
-  forallb (fun a => let r := logp a p in (0 <=? r) && (p ^ r <=? a) && (a <? p ^ (r + 1))) (zrange p 3000).
-Definition Logp_sweep_stmt := forall p a, 2 <= p <= 16 -> p <= a <= 3000 ->
-  0 <= logp a p /\ p ^ logp a p <= a < p ^ (logp a p + 1).
-Lemma logp_sweep : Logp_sweep_stmt.
-Proof.
-  intros p a Hp Ha. assert (H : logp_ok p = true) by (clear - Hp; revert p Hp; apply (sweep logp_ok); vm_cast_no_check (eq_refl true)).
-  unfold logp_ok in H. rewrite forallb_forall in H. specialize (H a (zrange_In _ _ _ Ha)). cbn zeta in H.
-  apply andb_true_iff in H. destruct H as [H H3]. apply andb_true_iff in H. destruct H as [H1 H2].
-  apply Z.leb_le in H1, H2. apply Z.ltb_lt in H3. lia.
-Qed.
-
 (* ------------------------------------------------------------------------------------------------------------------
    FULL statements of which the sweeps above are the bounded (`_partial`) versions.  They are NOT proved here; they are
    kept visible so that the gap is explicit (DESIGN 5/C13: claimed partial). *)
@@ -183,4 +170,3 @@ Definition Sqrootmodprimepower_full_stmt := forall p k a draws, prime p -> 1 <= 
 Definition Brillhart_full_stmt := forall p draws, prime p -> p mod 4 = 1 ->
   (exists g, In g draws /\ legendre g p = -1) -> Forall (fun d => 0 < d < p) draws ->
   exists a b, brillhart p draws = Some (a, b) /\ a * a + b * b = p.
-Definition Logp_full_stmt := forall p a, 2 <= p -> p <= a -> 0 <= logp a p /\ p ^ logp a p <= a < p ^ (logp a p + 1).
